@@ -607,6 +607,15 @@ pub fn apply_input_plugins(
         in_ops::json_array_op(&mut plugin_state, op)?
     }
     let result = in_ops::json_array_flatten(&mut plugin_state)?;
+    if result.is_empty() {
+        // for example an empty JSON array offered as a query: flattening leaves nothing to run,
+        // and the query would vanish from the batch without any response
+        let error_response = in_ops::package_error(
+            &mut query.clone(),
+            "input plugins produced no query to run for this input",
+        );
+        return Err(error_response);
+    }
     Ok(result)
 }
 
